@@ -84,6 +84,9 @@ def run(module, prop, tier, plan, describe, assumptions=()):
     cfg["tier"] = tier
     budget = os.environ.get("VERIF_BUDGET_S")
     deadline = time.monotonic() + float(budget) if budget else None
+    mx = os.environ.get("VERIF_MAX_RUNS")  # development aid: truncate every group
+    if mx:
+        plan = dict(plan, groups=[dict(g, indices=list(g["indices"])[:int(mx)]) for g in plan["groups"]])
     log_dir = os.path.join(VERIF, "replays", "logs")
     os.makedirs(log_dir, exist_ok=True)
     print(f"[{prop}] tier={tier} VERIF_SEED={master} runs={sum(len(g['indices']) for g in plan['groups'])} workers={plan.get('n_workers', 16)}", flush=True)
